@@ -99,10 +99,20 @@ HasTokenKey(v) == CASE v.t = "arr" -> \E i \in 1..Len(v.items) : HasTokenKey(v.i
                     [] v.t = "obj" -> (v.entries # <<>> /\ v.entries[1].k = Token) \/ \E i \in 1..Len(v.entries) : HasTokenKey(v.entries[i].v)
                     [] OTHER -> FALSE
 
+\* kept EXCEPT for the numbers of the K1 class (only then is a deviation the known finding K1)
+RECURSIVE SerKeepsButK1(_, _)
+SerKeepsButK1(a, b) ==
+  IF a.t # b.t THEN FALSE
+  ELSE CASE a.t = "num" -> (K1Class(a.num) \/ SerNumOK(a.num, b.num))
+         [] a.t = "arr" -> Len(a.items) = Len(b.items) /\ \A i \in 1..Len(a.items) : SerKeepsButK1(a.items[i], b.items[i])
+         [] a.t = "obj" -> Len(a.entries) = Len(b.entries) /\
+                           \A i \in 1..Len(a.entries) : a.entries[i].k = b.entries[i].k /\ SerKeepsButK1(a.entries[i].v, b.entries[i].v)
+         [] OTHER -> a = b
+
 ValueSerWhy(e) ==
   IF "ok" \notin DOMAIN e.out THEN "panic"
   ELSE IF e.out.ok /\ SerKeeps(SerValue(e.v), e.out.v) THEN ""
-  ELSE IF (\E sp \in NumbersOf(e.v) : K1Class(sp)) THEN "k1"
+  ELSE IF (\E sp \in NumbersOf(e.v) : K1Class(sp)) /\ (~e.out.ok \/ SerKeepsButK1(SerValue(e.v), e.out.v)) THEN "k1"
   ELSE IF HasTokenKey(e.v) THEN "k4"
   ELSE "value_ser"
 
@@ -126,7 +136,18 @@ Keeps(a, b, certs) ==
 CertsOK(certs) == \A i \in 1..Len(certs) :
                     LET c == certs[i] IN RoundsTo(ParseDec(c.sp), FromDigits(StripLeading(c.m)), c.e, 53, -1074)
 SigDigits(sp) == Len(StripTrailing(ParseDec(sp).digits))
-K2Class(sp) == SigDigits(sp) > 19
+\* K2 concerns decimals that go through a floating-point text parser: a spelling that is a 64-bit integer never does
+K2Class(sp) == SigDigits(sp) > 19 /\ ~FitsI64OrU64(sp)
+\* the value is kept EXCEPT for numbers of the K2 class (only then is a deviation the known finding K2; one wrong number of
+\* another kind in the same value is still reported)
+RECURSIVE KeepsButK2(_, _, _)
+KeepsButK2(a, b, certs) ==
+  IF a.t # b.t THEN FALSE
+  ELSE CASE a.t = "num" -> (K2Class(a.num) \/ NumKeeps(a.num, b.num, certs))
+         [] a.t = "arr" -> Len(a.items) = Len(b.items) /\ \A i \in 1..Len(a.items) : KeepsButK2(a.items[i], b.items[i], certs)
+         [] a.t = "obj" -> Len(a.entries) = Len(b.entries) /\
+                           \A i \in 1..Len(a.entries) : a.entries[i].k = b.entries[i].k /\ KeepsButK2(a.entries[i].v, b.entries[i].v, certs)
+         [] OTHER -> a = b
 
 \* value_de: the certificates are the nearest doubles of v's numbers (checked).
 \* text_de : the numbers reach the Value through serde_json's text parser, which is not
@@ -138,7 +159,7 @@ ValueDeWhy(e) ==
   \* known finding K4: the number-token protocol (a map whose first key is the token IS a number) works in both directions
   ELSE IF HasTokenKey(e.v) THEN "k4"
   ELSE IF "t" \notin DOMAIN e.back THEN "panic_or_error"
-  ELSE IF (\E sp \in NumbersOf(e.v) : K2Class(sp)) THEN "k2"
+  ELSE IF (\E sp \in NumbersOf(e.v) : K2Class(sp)) /\ KeepsButK2(e.expect, e.back, e.certs) THEN "k2"
   ELSE "value_de"
 
 \* --- C18
